@@ -141,7 +141,7 @@ func evalC20(in []byte) (vs []*Violation, has bool) {
 }
 
 func checkC20(r *Run) {
-	r.Assume = []string{"alphabets: 1 2 5 6 . x (len<=10/12) and 1 . x (len<=16/18); embedded (near-)valid addresses in 0-6 surrounding bytes from 1 9 . x"}
+	r.Assume = []string{"alphabets: 1 2 5 6 . x (len<=10/12), 1 . x (len<=16/18), 1 . 0xb1 0xae (len<=9/11); every byte value 0..255 substituted/inserted at every position of 6 address texts; embedded (near-)valid addresses in 0-6 surrounding bytes from 1 9 . x"}
 	run := func(c *enumCtx, s []byte) {
 		vs, has := evalC20(s)
 		c.st.Evals++
@@ -163,6 +163,22 @@ func checkC20(r *Run) {
 	}
 	enumStrings(r, []byte("1256.x"), 0, r.pick(10, 12), nil, run)
 	enumStrings(r, []byte("1.x"), 0, r.pick(16, 18), nil, run)
+	// bytes with the high bit set that look like a digit / dot once masked to 7 bits
+	enumStrings(r, []byte("1.\xb1\xae"), 0, r.pick(9, 11), nil, run)
+	// every byte value substituted / inserted at every position of a few address texts
+	bases := []string{"1.2.3.4", "12.34.56.78", "x1.2.3.4y", "255.255.255.255", "1.2.3", "91.2.3.47"}
+	parallelFor(r, len(bases)*256, func(c *enumCtx, i int) {
+		a, b := []byte(bases[i/256]), byte(i%256)
+		for p := 0; p <= len(a); p++ {
+			ins := append(append(append([]byte(nil), a[:p]...), b), a[p:]...)
+			run(c, ins)
+			if p < len(a) {
+				sub := append([]byte(nil), a...)
+				sub[p] = b
+				run(c, sub)
+			}
+		}
+	})
 	addrs := []string{"1.2.3.4", "255.255.255.255", "256.1.1.1", "1.2.3.256", "1.2.3.2540", "01.02.03.04", "1.2.3", "1..2.3.4", "1.2.3.4.5", "999.1.2.3", "25.25.25.25", "192.168.0.1", "0.0.0.0", "1.2.3.", ".1.2.3.4", "1111.2.3.4", "1.2222.3.4"}
 	parallelFor(r, len(addrs), func(c *enumCtx, i int) {
 		a := []byte(addrs[i])
